@@ -12,7 +12,7 @@ CFG = {
                 quick=dict(n=8, blocks=25, budget=0), thorough=dict(n=120, blocks=45, budget=0)),
     "C06": dict(mode="iso", directed=["checktx_not_delivered", "limiter_block", "vote_window_edges", "forced_unbond", "same_block_withdraw"],
                 quick=dict(n=2, blocks=6, budget=120), thorough=dict(n=24, blocks=10, budget=700, full=True)),
-    "C07": dict(mode="restart", directed=["valcount_change", "validator_churn", "vote_window_edges", "price_change", "many_unbonding", "forced_unbond", "twin_jail", "self_below_min", "slash_then_unstake"],
+    "C07": dict(mode="restart", directed=["restart_truncated", "valcount_change", "validator_churn", "vote_window_edges", "price_change", "many_unbonding", "forced_unbond", "twin_jail", "self_below_min", "slash_then_unstake"],
                 quick=dict(n=4, blocks=14, budget=14), thorough=dict(n=40, blocks=24, budget=60, full=True)),
 }
 
@@ -29,10 +29,7 @@ def run(prop, tier, replay=None, mc=None):
     t = cfg[tier]
     tmp = vlib.sub("apps")
     if replay:
-        scdirs = [os.path.dirname(os.path.abspath(replay))] if os.path.isdir(replay) else None
-        d = vlib.sub("replay-sc")
-        shutil.copy(replay, d)
-        groups = [d]
+        groups = [os.path.abspath(replay)]
     else:
         # base scenarios: directed + random (the generating run's own traces are not needed here)
         sd = vlib.sub("sc-directed")
@@ -56,16 +53,20 @@ def run(prop, tier, replay=None, mc=None):
     def one(i_g):
         i, g = i_g
         out = os.path.join(vlib.scratch(), "joint-%d.ndjson" % i)
-        args = ["replicas", "-mode", cfg["mode"], "-scenarios", g, "-out", out, "-tmp", tmp, "-seed", vlib.seed() * 13 + i,
-                "-budget", t.get("budget") or 100000]
-        if t.get("full"):
-            args.append("-full")
+        vdir = vlib.sub("variants-%d" % i)
+        if replay:
+            args = ["replicas", "-replay", g, "-out", out, "-tmp", tmp]
+        else:
+            args = ["replicas", "-mode", cfg["mode"], "-scenarios", g, "-out", out, "-tmp", tmp, "-seed", vlib.seed() * 13 + i,
+                    "-budget", t.get("budget") or 100000, "-variants", vdir]
+            if t.get("full"):
+                args.append("-full")
         st = vlib.driver_json(args, timeout=7200)
         res = vlib.run_tlc(vlib.spec_files("ReplicasTrace.tla", "ReplicasTrace.cfg"), "ReplicasTrace.tla", "ReplicasTrace.cfg", workers=1,
                            timeout=3000, cwd_files={"trace.ndjson": out}, java_opts=["-Xmx3g"])
         if vlib.tlc_failed(res) or "VIOLATIONS" not in res.prints:
             raise vlib.MachineryError("replica trace validation failed:\n" + res.output[-2000:])
-        return g, out, st, res.print_json("VIOLATIONS")
+        return (replay or vdir), out, st, res.print_json("VIOLATIONS")
 
     tot = {"traces": 0, "pairs": 0, "scenarios": 0, "events": 0}
     samples = []
@@ -88,10 +89,17 @@ def run(prop, tier, replay=None, mc=None):
                         print("NOTE (clause of another property): " + what, flush=True)
                         continue
                     os.makedirs(vlib.REPLAYS, exist_ok=True)
-                    path = os.path.join(vlib.REPLAYS, "%s-seed%d-variant%d.json" % (prop, vlib.seed(), b["k"]))
-                    json.dump({"variant": b["desc"], "base_scenarios_dir": g, "op_index": b["i"], "what": what}, open(path, "w"), indent=1)
+                    # the replay file is the self-contained (base history, variant) pair the driver saved
+                    if replay:
+                        path = os.path.abspath(replay)
+                    else:
+                        src = os.path.join(g, "variant-%d.json" % b["k"])
+                        if not os.path.exists(src):
+                            raise vlib.MachineryError("the driver saved no replay file for the violating variant %s" % b["desc"])
+                        path = os.path.join(vlib.REPLAYS, "%s-seed%d-%s-variant%d.json" % (prop, vlib.seed(), os.path.basename(os.path.dirname(src)), b["k"]))
+                        shutil.copy(src, path)
                     v.violation("%s [%s; base op %s]" % (what, b["desc"], b["i"]), {"clause": what, "variant": b["desc"]}, replay=path)
-    if tot["pairs"] < 50 and not v.violations:
+    if not replay and tot["pairs"] < 50 and not v.violations:
         raise vlib.MachineryError("only %d calls were compared (dead driver)" % tot["pairs"])
     cov = {
         "traces_validated_against_impl": tot["traces"], "events_validated": tot["events"],
